@@ -17,6 +17,8 @@ def parse_log(msg):
     val = val.strip()
     if val in ('""', ""):
         return (label, None)
+    if len(val) >= 2 and val[0] == '"' and val[-1] == '"':
+        return (label, val[1:-1])
     try:
         f = float(val)
         if f == int(f):
